@@ -147,10 +147,10 @@ func c01RootTip(w *core.WorkerCtx) {
 // tip (not built upon yet). A truncation starts from that tip while six clients propose: whichever proposal first
 // validates the tip - before, during or after the cut - must count the checkpointed part of X's history exactly once
 // and drop the tip.
-func c01TruncationRace(w *core.WorkerCtx) {
+func c01TruncationRace(w *core.WorkerCtx, report []string) {
 	rng := core.Rand(w.Seed, "C01race")
 	desc := "c01 truncation race: X received 10 and spent 8 (both get checkpointed), tentative tip X spends 3, truncation racing with 24 proposals"
-	world := ledger.NewWorld(rng, w.R, []string{"C01"}, allSnapOracles, desc)
+	world := ledger.NewWorld(rng, w.R, report, allSnapOracles, desc)
 	defer world.Close()
 	d, err := ledger.Setup(world, ledger.Profile{Nodes: 1, Users: 5, SupplyClass: 0, Delivery: "lockstep"})
 	if err != nil {
@@ -189,7 +189,11 @@ func c01TruncationRace(w *core.WorkerCtx) {
 	}
 	_, live := n.Prev.Live[tv.Hash]
 	_, stored := n.Prev.Stored[s1.Hash]
-	world.EvalFor("C01", 1)
-	world.NontrivFor("C01", fmt.Sprintf("truncation-race/overdrawing-tip-still-live=%v/checkpoint=%v", live, len(n.Prev.Stored) > 0 || stored))
-	w.R.Count("c01_truncation_race_scenarios", 1)
+	// conservation over everything confirmed (C02): X must not have spent more than it received
+	world.CheckConservation(n)
+	for _, p := range report {
+		world.EvalFor(p, 1)
+		world.NontrivFor(p, fmt.Sprintf("truncation-race/overdrawing-tip-still-live=%v/checkpoint=%v", live, len(n.Prev.Stored) > 0 || stored))
+	}
+	w.R.Count("truncation_race_scenarios", 1)
 }
